@@ -31,3 +31,16 @@ CHECKS = {
         "assumptions": ["keys are installed with SetSymmetricKey directly (handshake is other properties' business)", _SAMPLING],
     },
 }
+
+CHECKS["C02"] = {
+    "level": "fault_enumeration",
+    "technique": _TECH + ": frame-aware on-path adversary between two keyed real streams; single faults enumerated, multi-fault combinations seeded",
+    "level_text": "Fault enumeration: for five transcript families of protected frames (single- and multi-frame, empty messages and empty partial frames, with reverse-direction traffic) every single fault of the catalogue is applied by an on-path filter inside the simulated connection - each bit of every header/IV/ciphertext/tag (thorough; every 7th in quick), each frame dropped, duplicated, swapped, replayed after each later frame, cut at every length then closed, forged frames of 7 length classes x 5 end-flag values inserted at every position, a frame of the other direction inserted - against four receive APIs; seeded multi-fault combinations on drawn transcripts on top. The oracle is position based and independent of the fault kind: what the application received must be an exact prefix of what was sent and nothing at or after the message containing the first changed wire byte may be delivered.",
+    "level_note": "Trusts Go's AES-GCM and the simulator's byte-stream semantics. Keys installed directly with SetSymmetricKey (both handshake digests zero). Enumeration is exhaustive over the stated catalogue for the stated transcript families only.",
+    "budget": {"quick": 30, "thorough": 1200},
+    "rule": "a case is one simulated run of a transcript family with one enumerated fault (or 2-3 drawn faults) applied by the on-path frame filter and one receive API; "
+            "distinct = distinct event-log hash (includes which fault fired where); non-trivial = a fault fired or the scheduler had a choice.",
+    "real": _REAL_STREAM,
+    "stub": _SIM + ["on-path adversary (simnet.FrameFilter, scripted)"],
+    "assumptions": ["keys installed with SetSymmetricKey", _SAMPLING],
+}
